@@ -3,7 +3,11 @@
    every text is a value spec (parts joined by '+': hex | - | *<n> | *<n>/<hexpattern>);
    world: "-" or a comma-separated list of NAME=VALUE (environment), @o=VALUE (what a command run by %exec prints),
    @d<name>=<e>;<e>;... (a directory: VALUE regular file, !VALUE directory, ?VALUE stat fails, #<count>x<len> generated names);
-   ops: e:<text> (expand), p:<k>:<v> (put_var), d:<k> (put_var k NULL), g:<k> (get_var).  Output: one result per op separated by " ; " (an expansion result is followed by L<blocks left allocated>),
+   @f<name>=<value>|! (a function the application registers: it answers <value> followed by its argument, <value>^ for a NULL
+   argument, NULL with !), @F=<count> (count functions f<k> answering "<k:" and the argument), @n=<count> (only the first count
+   functions are registered at the start), @c=<count> (contexts registered in every cycle: no effect on the model);
+   ops: e:<text> (expand), p:<k>:<v> (put_var), d:<k> (put_var k NULL), g:<k> (get_var), r:<n> (register the functions up to
+   the n-th), c:<n> (free, init, register the first n functions: the store is empty again).  Output: one result per op separated by " ; " (an expansion result is followed by L<blocks left allocated>),
    then " | " and the store in list order.
    An expansion runs on an object of CONFIG_BUFF cells: the text, its terminator, then cells that were never
    written (reading one is a fault). *)
@@ -32,9 +36,11 @@ let gen_names grp cnt len =
       let ds = List.rev (digits i []) in          (* least significant first *)
       List.iteri (fun z c -> if z < len then Bytes.set b (len - 1 - z) c) ds;
       List.init len (fun k -> z_of_int (Char.code (Bytes.get b k))))
-type world = { env : (z list * z list) list; out : z list option; dirs : (z list * z list list) list }
+type world = { env : (z list * z list) list; out : z list option; dirs : (z list * z list list) list;
+               funs : (z list * z list option) list; nstart : int option }
+let zs_of_string s = List.init (String.length s) (fun i -> z_of_int (Char.code s.[i]))
 let parse_world s =
-  let w = ref { env = []; out = None; dirs = [] } in
+  let w = ref { env = []; out = None; dirs = []; funs = []; nstart = None } in
   if s <> "-" then
     List.iter (fun kv ->
         match String.index_opt kv '=' with
@@ -57,7 +63,21 @@ let parse_world s =
                   | '!' | '?' -> []
                   | _ -> [zbytes_of_spec e]) (split_on ';' v)) in
             w := { !w with dirs = !w.dirs @ [(name, regular)] }
-          end else w := { !w with env = !w.env @ [(zbytes_of_spec k, zbytes_of_spec v)] }) (split_on ',' s);
+          end
+          else if String.length k >= 2 && k.[0] = '@' && k.[1] = 'f' then begin
+            if List.length !w.funs < 200 then
+              w := { !w with funs = !w.funs @ [(zbytes_of_spec (String.sub k 2 (String.length k - 2)), if v = "!" then None else Some (zbytes_of_spec v))] }
+          end
+          else if k = "@F" then begin
+            for _ = 1 to int_of_string v do
+              let i = List.length !w.funs in
+              if i < 200 then
+                w := { !w with funs = !w.funs @ [(zs_of_string (Printf.sprintf "f%d" i), Some (zs_of_string (Printf.sprintf "<%d:" i)))] }
+            done
+          end
+          else if k = "@n" then w := { !w with nstart = Some (int_of_string v) }
+          else if k = "@c" then ()
+          else w := { !w with env = !w.env @ [(zbytes_of_spec k, zbytes_of_spec v)] }) (split_on ',' s);
   !w
 let ext_name = function Spawn -> "spawn" | Random -> "random" | Dirscan -> "dirscan"
 let show_store st =
@@ -82,6 +102,18 @@ let run = function
     let dl = dir_world w.dirs in
     let pn = zbytes_of_spec pn and pv = zbytes_of_spec pv in
     let buf = Buffer.create 256 in
+    (* the functions the application registered: the k-th has code 7 + k; only the first `nreg` are in the table *)
+    let nfun = List.length w.funs in
+    let funs = Array.of_list w.funs in
+    let nbuiltin = 7 in
+    let table nreg = List.init (min nreg nfun) (fun k -> (fst funs.(k), z_of_int (nbuiltin + k))) in
+    let ufn code arg =
+      let k = int_of_z code - nbuiltin in
+      if k < 0 || k >= nfun then None else
+      match snd funs.(k) with
+      | None -> None
+      | Some r -> Some (r @ (match arg with Some a -> a | None -> [z_of_int 94])) in
+    let nreg = ref (match w.nstart with Some n -> min n nfun | None -> nfun) in
     let rec go st first = function
       | [] -> Buffer.add_string buf (" | " ^ show_store st)
       | op :: rest ->
@@ -92,7 +124,7 @@ let run = function
            let n = List.length s in
            if n + 1 > cbn then failwith "input longer than CONFIG_BUFF - 1";
            let b = cstr s (rep_none (cbn - n - 1) []) in
-           (match shell_expand genv pn pv xo dl (nat_of_int (n + 1)) b st with
+           (match shell_expand genv pn pv xo dl (table !nreg) ufn (nat_of_int (n + 1)) b st with
             | Fault x -> Buffer.clear buf; Buffer.add_string buf ("FAULT:" ^ fault_name x)
             | Ok (XNull, st') -> Buffer.add_string buf ("N" ^ ledger st st'); go st' false rest
             | Ok (XBuf s', st') -> Buffer.add_string buf ("S " ^ hex_of_zbytes (take_str s') ^ ledger st st'); go st' false rest
@@ -104,6 +136,12 @@ let run = function
             | None -> Buffer.add_string buf "U"
             | Some v -> Buffer.add_string buf ("V " ^ hex_of_zbytes v));
            go st false rest
+         | ["r"; n] ->
+           let n = min (int_of_string n) nfun in
+           Buffer.add_string buf (Printf.sprintf "R%d" (if n > !nreg then nbuiltin + n - 1 else -1));
+           if n > !nreg then nreg := n;
+           go st false rest
+         | ["c"; n] -> nreg := min (int_of_string n) nfun; Buffer.add_string buf "C"; go [] false rest
          | _ -> failwith "op")
     in
     go [] true ops;
